@@ -228,7 +228,7 @@ public:
     return i;
   }
 
-  std::map<const VarDecl*, int> localId;  // per function
+  std::map<const VarDecl*, int> localId;  // TU-wide
   int LOCAL(const VarDecl* V) {
     auto it = localId.find(V);
     if (it != localId.end()) return it->second;
@@ -329,6 +329,9 @@ public:
         o["i"] = (int)P->getFunctionScopeIndex();
         o["n"] = P->getNameAsString();
         o["d"] = (int)P->getFunctionScopeDepth();
+        // the function that owns the parameter: inside a lambda body a captured parameter of the enclosing function is
+        // referenced by the same kind of node as the lambda's own parameters
+        if (const auto* OF = dyn_cast_or_null<FunctionDecl>(P->getDeclContext())) o["fn"] = FN(OF);
       } else if (const auto* VD = dyn_cast<VarDecl>(V)) {
         if (VD->hasGlobalStorage() && !VD->isStaticLocal()) {
           o["k"] = "gvar";
@@ -351,6 +354,7 @@ public:
       } else if (const auto* BD = dyn_cast<BindingDecl>(V)) {
         o["k"] = "binding";
         o["n"] = BD->getNameAsString();
+        if (const Expr* BE = BD->getBinding()) o["e"] = expr(BE);
       } else {
         o["k"] = "unkref";
         o["n"] = V->getNameAsString();
@@ -576,7 +580,13 @@ public:
       o["k"] = "decl";
       json::Array a;
       for (const Decl* D : DS->decls())
-        if (const auto* V = dyn_cast<VarDecl>(D)) a.push_back(varDecl(V));
+        if (const auto* V = dyn_cast<VarDecl>(D)) {
+          a.push_back(varDecl(V));
+          // structured bindings of a tuple-like type: the implicit holding variables (initialised by get<I>(e))
+          if (const auto* DD = dyn_cast<DecompositionDecl>(V))
+            for (const BindingDecl* B : DD->bindings())
+              if (const VarDecl* H = B->getHoldingVar()) a.push_back(varDecl(H));
+        }
       o["d"] = std::move(a);
       return std::move(o);
     }
@@ -700,7 +710,7 @@ public:
 
   json::Value function(int id) {
     const FunctionDecl* F = fns[id];
-    localId.clear();
+    /* local ids are unique in the TU: a lambda body refers to captured locals of its enclosing function by the same id */
     json::Object o;
     o["id"] = id;
     o["name"] = qualName(F);
@@ -836,7 +846,7 @@ public:
       if (FD->hasInClassInitializer()) {
         f["nsdmi"] = true;
         if (const Expr* IE = FD->getInClassInitializer()) {
-          localId.clear();
+          /* local ids are unique in the TU: a lambda body refers to captured locals of its enclosing function by the same id */
           f["init"] = expr(IE);
         }
       }
@@ -884,7 +894,7 @@ public:
 
   json::Value variable(int id) {
     const VarDecl* V = vars[id];
-    localId.clear();
+    /* local ids are unique in the TU: a lambda body refers to captured locals of its enclosing function by the same id */
     json::Object o;
     o["id"] = id;
     o["name"] = qualName(V);
